@@ -132,6 +132,166 @@ def register(reg):
                           ("source-unchanged", "same(pts(track), %s)" % L)]))
 
 
+    # ---------------------------------------------------------------- Visvalingam
+    register_visvalingam(reg)
+
+
+BIGF = "1e+300"
+
+
+def tri(t, a, b, c):
+    return "triarea(X(%s, %s), Y(%s, %s), X(%s, %s), Y(%s, %s), X(%s, %s), Y(%s, %s))" % (t, a, t, a, t, b, t, b, t, c, t, c)
+
+
+def register_visvalingam(reg):
+    from specs.track_model import T, DICO, PTS
+    S = "tracklib.algo.simplification:"
+    OPS = "tracklib.core.operators:"
+    NNC = "all(not isnan(X(track, r)) and not isnan(Y(track, r)) for r in range(0, npts(track)))"
+    # triangle_area: a pure function of six floats, denoted triarea(..) in the contracts below
+    P6 = dict(x0="float", y0="float", x1="float", y1="float", x2="float", y2="float")
+    reg.add(Spec(G + "triangle_area", P6, "float", denotes="triarea",
+                 requires=["not isnan(x0) and not isnan(y0) and not isnan(x1) and not isnan(y1) and not isnan(x2) and not isnan(y2)"],
+                 ensures=[("non-negative", "not isnan(result) and result >= 0")]))
+    # aire_visval(track, i): area of the triangle (i-1, i, i+1); IndexError exactly at the last fix (i-1 = -1 wraps around
+    # at the first fix: Python semantics, which is why visvalingam overwrites the value of fix 0)
+    reg.add(Spec(G + "aire_visval", dict(track="Track", i="int"), "float", negative_indices=True,
+                 requires=["0 <= i and i < npts(track)", NNC],
+                 raises={"IndexError": "i + 1 >= npts(track)"},
+                 ensures=[("area-of-the-neighbour-triangle", "implies(i >= 1, result == %s)" % tri("track", "i - 1", "i", "i + 1")),
+                          ("a-number", "not isnan(result)")]))
+    # Operator.ARGMIN: index of a smallest value below 1e300 (NaN never selected); 0 when there is none
+    c = "col(track, af_input, %s)"
+    reg.add(Spec(OPS + "Argmin.execute", dict(self="Argmin", track="Track", af_input="str"), "int",
+                 requires=["twf(track)", "hasname(track, af_input)", "not reserved(af_input)"],
+                 loops={"1": LoopSpec(inv=["not isnan(minimum) and minimum <= %s" % BIGF, "0 <= idmin and (idmin < i or idmin == 0)",
+                                           "implies(minimum == %s, idmin == 0)" % BIGF,
+                                           "implies(minimum < %s, idmin < i and same(minimum, %s))" % (BIGF, c % "idmin"),
+                                           "all(not (%s < minimum) for q in range(0, i))" % (c % "q")])},
+                 ensures=[("an-index", "0 <= result and (result < npts(track) or result == 0)"),
+                          ("smallest-of-the-values-below-1e300", "all(implies(%s < %s, %s < %s and %s <= %s) for q in range(0, npts(track)))"
+                           % (c % "q", BIGF, c % "result", BIGF, c % "result", c % "q")),
+                          ("zero-when-there-is-none", "implies(all(not (%s < %s) for q in range(0, npts(track))), result == 0)" % (c % "q", BIGF))]))
+    c2 = "col(self, arg1, %s)"
+    reg.add(Spec(T + "operate", dict(self="Track", operator="Argmin", arg1="str"), "int",
+                 requires=["twf(self)", "hasname(self, arg1)", "not reserved(arg1)"],
+                 ensures=[("an-index", "0 <= result and (result < npts(self) or result == 0)"),
+                          ("smallest-of-the-values-below-1e300", "all(implies(%s < %s, %s < %s and %s <= %s) for q in range(0, npts(self)))"
+                           % (c2 % "q", BIGF, c2 % "result", BIGF, c2 % "result", c2 % "q"))]), variant="argmin")
+    # addAnalyticalFeature(aire_visval, name): the real generic loop with its try / except IndexError, the algorithm fixed to
+    # aire_visval: interior fixes get the area of their neighbour triangle, the last fix NaN (IndexError caught)
+    from specs.track_model import ALLCOLS_SAME
+    OTHER_OBS = ("all(implies(all(obs(self, q) != o for q in range(0, npts(self))), untouched(o, 'Obs.features')) "
+                 "for o in refs(Obs))")
+
+    def arel(v, r):
+        return "(isnan(%s) if %s == npts(self) - 1 else (not isnan(%s) and implies(%s >= 1, %s == %s)))" % (
+            v, r, v, r, v, tri("self", "%s - 1" % r, r, "%s + 1" % r))
+    reg.add(Spec(T + "addAnalyticalFeature", dict(self="Track", name="str"), "list[float]", bind=dict(algorithm=G + "aire_visval"),
+                 requires=["twf(self)", NNC.replace("track", "self"), "not reserved(name)"],
+                 raises={"AnalyticalFeatureError": "npts(self) <= 0 and not hasname(self, name)"},
+                 modifies=["Obs.features", "Track." + DICO],
+                 ensures=[("wf", "twf(self)"),
+                          ("listed", "hasname(self, name)"),
+                          ("names", "all(implies(k != name, hasname(self, k) == old(hasname(self, k))) for k in strs)"),
+                          ("values", "all(%s for r in range(0, npts(self)))" % arel("col(self, name, r)", "r")),
+                          ("other-columns", ALLCOLS_SAME % "name"),
+                          ("other-observations", OTHER_OBS),
+                          ("other-tracks", "all(implies(r != self, same(r.%s, old(r.%s))) for r in refs(Track))" % (DICO, DICO))],
+                 loops={"1": LoopSpec(inv=[
+                     "twf(self)", "hasname(self, name)", "idAF == colidx(self, name)",
+                     "unchanged_except('Track.%s', self)" % DICO,
+                     "all(implies(k != name, hasname(self, k) == old(hasname(self, k))) for k in strs)",
+                     "all(%s for r in range(0, i))" % arel("cell(self, r, idAF)", "r"),
+                     ALLCOLS_SAME % "name",
+                     OTHER_OBS])}), variant="aire_visval")
+    # Track.copy = copy.deepcopy (trusted): a new track of new observations with the same content
+    reg.add(Spec(T + "copy", dict(self="Track"), "Track", trusted=True, fresh=["Track", "Obs", "ENUCoords", "ObsTime"],
+                 ensures=["isnew(result)", "npts(result) == npts(self)",
+                          "all(isnew(obs(result, i)) and isnew(obs(result, i).position) and isnew(obs(result, i).timestamp) for i in range(0, npts(self)))",
+                          "all(same(X(result, i), X(self, i)) and same(Y(result, i), Y(self, i)) and same(Z(result, i), Z(self, i)) for i in range(0, npts(self)))",
+                          "all(samefields(tstamp(result, i), tstamp(self, i)) for i in range(0, npts(self)))",
+                          "all(same(obs(result, i).features, obs(self, i).features) for i in range(0, npts(self)))",
+                          "same(result.%s, self.%s)" % (DICO, DICO),
+                          "implies(twf(self), twf(result))"]))
+    # removeObs(index): the fix is taken out, the others keep their order (through removeObsList([index]) and C04's
+    # __removeObsListById)
+    reg.add(Spec(T + "removeObsList", dict(self="Track", tab="list[int]"), "int", inline=True,
+                 loops={"1": LoopSpec(inv=["True"])}))
+    reg.add(Spec(T + "removeObs", dict(self="Track", arg="int"), "int",
+                 requires=["0 <= arg and arg < npts(self)"], modifies=["Track." + PTS],
+                 ensures=[("one-fix-less", "result == 1 and npts(self) == old(npts(self)) - 1"),
+                          ("fixes-before-stay", "all(pts(self)[p] == old(pts(self))[p] for p in range(0, arg))"),
+                          ("fixes-after-move-down", "all(pts(self)[p] == old(pts(self))[p + 1] for p in range(arg, npts(self)))"),
+                          ("only-this-track", "unchanged_except('Track.%s', self)" % PTS),
+                          ("table-stays-well-formed", "implies(old(twf(self)), twf(self))")]))
+
+    # ------------------------------------------------------------ visvalingam itself
+    n = "npts(output)"
+    AIRE = "col(output, '@aire', %s)"
+    IDX = "idxin(P0, obs(output, %s))"
+    INV = ["isnew(output) and output is not track", "twf(output)", "hasname(output, '@aire')",
+           "2 <= %s and %s <= len(P0)" % (n, n),
+           "obs(output, 0) is P0[0]", "obs(output, %s - 1) is P0[len(P0) - 1]" % n,
+           # the fixes still present are fixes of the copy, in the copy's order
+           "all(0 <= %s and %s < len(P0) and P0[%s] is obs(output, q) for q in range(0, %s))" % (IDX % "q", IDX % "q", IDX % "q", n),
+           "all(implies(q < q2, %s < %s) for q in range(0, %s) for q2 in range(0, %s))" % (IDX % "q", IDX % "q2", n, n),
+           # their coordinates are those of the corresponding input fixes
+           "all(same(X(output, q), X(track, %s)) and same(Y(output, q), Y(track, %s)) and samefields(tstamp(output, q), tstamp(track, %s)) for q in range(0, %s))"
+           % (IDX % "q", IDX % "q", IDX % "q", n),
+           "all(not isnan(X(output, q)) and not isnan(Y(output, q)) for q in range(0, %s))" % n,
+           # the end points carry NaN (never candidates), every interior fix carries a number below 1e300 (a candidate)
+           "isnan(%s) and isnan(%s)" % (AIRE % "0", AIRE % (n + " - 1")),
+           "all(not isnan(%s) and %s < %s for q in range(1, %s - 1))" % (AIRE % "q", AIRE % "q", BIGF, n),
+           # the input is not touched
+           "unchanged_old('Obs.features', 'ENUCoords.E', 'ENUCoords.N', 'ENUCoords.U', 'Track.%s', 'Track.%s', 'Obs.position', 'Obs.timestamp')" % (PTS, DICO)]
+    nt = "npts(track)"
+    UO = "unchanged_old('Obs.features', 'ENUCoords.E', 'ENUCoords.N', 'ENUCoords.U', 'Track.%s', 'Track.%s', 'Obs.position', 'Obs.timestamp')" % (PTS, DICO)
+    reg.add(Spec(S + "visvalingam", dict(track="Track", eps="float"), "Track",
+                 requires=["twf(track)", nt + " >= 2", NNC, "not isnan(eps)",
+                           # no triangle of three input fixes has an area of 1e300 or more (Operator.ARGMIN ignores such values)
+                           "all(implies(a < b and b < c, %s < %s) for a in range(0, %s) for b in range(0, %s) for c in range(0, %s) if pattern(%s))"
+                           % (tri("track", "a", "b", "c"), BIGF, nt, nt, nt, tri("track", "a", "b", "c"))],
+                 fresh=["Track", "Obs", "ENUCoords", "ObsTime"],
+                 at={"output = track.copy()": ["ghost P0 = pts(output)", ("input-untouched-by-copy", UO),
+                                                ("new-fixes", "all(isnew(obs(output, q)) for q in range(0, npts(output)))")],
+                     "output.addAnalyticalFeature(aire_visval, '@aire')": [("input-untouched-by-add", UO), ("same-fixes-after-add", "same(pts(output), P0)")],
+                     "output.setObsAnalyticalFeature('@aire', 0, NAN)": [("input-untouched-by-set", UO), ("same-fixes-after-set", "same(pts(output), P0)")],
+                     "output.removeObs(id)": [("input-untouched-by-removal", UO),
+                                              ("table-after-removal", "twf(output) and hasname(output, '@aire')"),
+                                              ("fixes-of-the-copy-after-removal", INV[6]), ("order-after-removal", INV[7]),
+                                              ("coordinates-after-removal", INV[8]), ("numbers-after-removal", INV[9]),
+                                              ("end-values-after-removal", INV[10]),
+                                              ("other-values-after-removal", "all(implies(q != id - 1 and q != id, not isnan(%s) and %s < %s) for q in range(1, %s - 1))"
+                                               % (AIRE % "q", AIRE % "q", BIGF, n)),
+                                              ("new-left-triangle-is-small", "implies(id > 1, %s < %s)" % (tri("output", "id - 2", "id - 1", "id"), BIGF)),
+                                              ("new-right-triangle-is-small", "implies(id < %s - 1, %s < %s)" % (n, tri("output", "id - 1", "id", "id + 1"), BIGF))],
+                     "if id > 1:": [("values-after-the-left-update", "all(implies(q != id, not isnan(%s) and %s < %s) for q in range(1, %s - 1))" % (AIRE % "q", AIRE % "q", BIGF, n)),
+                                    ("end-values-after-the-left-update", INV[10])],
+                     "id = output.operate(Operator.ARGMIN, '@aire')": [
+                         ("a-candidate-exists", "%s < %s" % (AIRE % "1", BIGF)),
+                         ("argmin-is-an-interior-fix", "1 <= id and id <= %s - 2" % n)]},
+                 loops={"1": LoopSpec(inv=INV, decreases=n)},
+                 ensures_local=[("keeps-the-first-fix", "obs(result, 0) is P0[0]"),
+                                ("keeps-the-last-fix", "obs(result, npts(result) - 1) is P0[len(P0) - 1]"),
+                                ("only-fixes-of-the-copy", "all(0 <= %s and %s < len(P0) and P0[%s] is obs(result, q) for q in range(0, npts(result)))"
+                                 % ((IDX % "q").replace("output", "result"), (IDX % "q").replace("output", "result"), (IDX % "q").replace("output", "result"))),
+                                ("in-the-original-order", "all(implies(q < q2, %s < %s) for q in range(0, npts(result)) for q2 in range(0, npts(result)))"
+                                 % ((IDX % "q").replace("output", "result"), (IDX % "q2").replace("output", "result"))),
+                                ("each-kept-fix-has-the-position-and-time-of-its-input-fix",
+                                 "len(P0) == npts(track) and all(same(X(result, q), X(track, idxin(P0, obs(result, q)))) and same(Y(result, q), Y(track, idxin(P0, obs(result, q)))) and "
+                                 "samefields(tstamp(result, q), tstamp(track, idxin(P0, obs(result, q)))) for q in range(0, npts(result)))")],
+                 ensures=[("new-track", "isnew(result)"),
+                          ("at-least-two-fixes", "2 <= npts(result) and npts(result) <= npts(track)"),
+                          ("first-fix-is-the-input's-first", "same(X(result, 0), X(track, 0)) and same(Y(result, 0), Y(track, 0)) and samefields(tstamp(result, 0), tstamp(track, 0))"),
+                          ("last-fix-is-the-input's-last", "same(X(result, npts(result) - 1), X(track, npts(track) - 1)) and same(Y(result, npts(result) - 1), Y(track, npts(track) - 1)) "
+                           "and samefields(tstamp(result, npts(result) - 1), tstamp(track, npts(track) - 1))"),
+                          ("table-well-formed", "twf(result)"),
+                          ("source-unchanged", "same(pts(track), old(pts(track)))")]))
+
+
 USES_LIB = True
-FUNCTIONS = [G + "distance_to_segment", "tracklib.algo.simplification:douglas_peucker"]
+FUNCTIONS = [G + "distance_to_segment", "tracklib.algo.simplification:douglas_peucker",
+             G + "triangle_area", G + "aire_visval", "tracklib.core.operators:Argmin.execute",
+             "tracklib.core.track:Track.operate@argmin", "tracklib.core.track:Track.addAnalyticalFeature@aire_visval", "tracklib.algo.simplification:visvalingam", "tracklib.core.track:Track.removeObs"]
 ASSUMPTIONS = ["math.sqrt: r >= 0 and r*r == x (trusted axiom)"]
